@@ -318,10 +318,15 @@ def protoIdToName (H : HashFns) (reg : List Bytes) (id : Bytes) : Option Bytes :
 /-- `hash(serviceID | data)` -/
 def peerSetPre (sid data : Bytes) : Bytes := sid ++ data
 
+/-- `network.NewPeerSetID` (network/router.go:74-79): `var p [32]byte; copy(p[:], data)` — the first 32 bytes,
+zero-padded -/
+def newPeerSetID (data : Bytes) : Bytes :=
+  let d := data.take 32
+  d ++ List.replicate (32 - d.length) 0
+
 /-- `Context.NewPeerSetID`: the (32-byte) SHA-256 digest of the pre-image, copied into a `[32]byte` -/
 def peerSetId (H : HashFns) (sid data : Bytes) : Bytes :=
-  let d := (H.sha256 (peerSetPre sid data)).take 32
-  d ++ List.replicate (32 - d.length) 0
+  newPeerSetID (H.sha256 (peerSetPre sid data))
 
 /-! ### line-protocol driver -/
 namespace Drv
